@@ -2,7 +2,7 @@ ST = "statime_h"
 _kinds = [("sync", "Sync"), ("delay_req", "Delay_Req"), ("pdelay_req", "Pdelay_Req"), ("pdelay_resp", "Pdelay_Resp"),
           ("follow_up", "Follow_Up"), ("delay_resp", "Delay_Resp"), ("pdelay_resp_fu", "Pdelay_Resp_Follow_Up"),
           ("announce", "Announce"), ("signaling", "Signaling"), ("management", "Management")]
-_quick_kinds = ("sync", "announce")
+_quick_kinds = ("sync",)
 PROP = dict(
     functions=[
         "statime_wire::Message::{deserialize,serialize,wire_size}",
@@ -23,8 +23,8 @@ PROP = dict(
     ],
     stub_notes=["no stubs: plain #[kani::proof] harnesses over the public API (+ hook statime_wire::verif::common::tlv::tlv_type_to_primitive to read a TLV type code)"],
     harnesses=[
-        H(ST, "c41", "c41_parse_sync", "Sync-typed datagrams (first octet 0x00 fixed), the other <= 55 bytes and the length symbolic: Ok(m) => serialize writes messageLength bytes equal to the input on all defined bits (reserved bits zero), nothing beyond; no panic", timeout=1500),
-        H(ST, "c41", "c41_parse_sync_tlv", "same inputs: header fields at their wire offsets, messageLength bounds, TLV iterator walks exactly the TLVs of the raw suffix (type code, even length, value bytes)", timeout=1500),
+        H(ST, "c41", "c41_parse_sync", "Sync-typed datagrams (first octet 0x00 fixed), the other <= 55 bytes and the length symbolic: Ok(m) => serialize writes messageLength bytes equal to the input on all defined bits (reserved bits zero), nothing beyond; no panic (575 s)", tier="thorough", timeout=1500, timeout_thorough=1800),
+        H(ST, "c41", "c41_parse_sync_tlv", "same inputs: header fields at their wire offsets, messageLength bounds, TLV iterator walks exactly the TLVs of the raw suffix (type code, even length, value bytes) (539 s)", tier="thorough", timeout=1500, timeout_thorough=1800),
     ] + [
         H(ST, "c41", "c41_build_" + k, "%s body, symbolic header/body/TLVs: serialise (length, messageLength, TLV headers at their offsets) and parse back to an equal message; TLVs iterate in order" % n,
           tier=("quick" if k in _quick_kinds else "thorough"), timeout=900) for k, n in _kinds if k in ("sync", "announce", "management")
